@@ -96,6 +96,18 @@ struct RenderW {
             LibCall lc;
             new (stream.p) Stm();
             if (!prefix.empty()) stream->Write(pre.ptr, (SizeT)pre.len);
+        }
+        // everything alive now (the value, the template text, a parsed cache) is read-only for the render; only the
+        // caller's stream may be written. A cache that is still empty is written by the first (parsing) call.
+        qsim::mark_shared_ro_all();
+        qsim::set_block_owner_task(stream.p, 0);
+        qsim::set_block_owner_task(stream->Storage(), 0);
+        if (how == 1 && cache->IsEmpty()) {
+            qsim::set_block_owner_task(cache, 0);
+            qsim::set_block_owner_task(cache->Storage(), 0);
+        }
+        {
+            LibCall lc;
             switch (how) {
                 case 0: Qentem::Template::Render(content, length, value, *stream); break;
                 case 1: Qentem::Template::Render(content, length, value, *stream, *cache); break;
@@ -105,6 +117,7 @@ struct RenderW {
                 }
             }
         }
+        qsim::clear_shared_ro_all();
         bool ok = read_units(stream->First(), stream->Length(), out, "render-stream");
         {
             LibCall lc;
@@ -125,6 +138,22 @@ struct RenderW {
         if (values.empty()) return;
         U32 text = tmpl;
         for (auto &f : pending) {
+            if (f.kind == F_COUNT) {
+                // tag-level damage: what an editor slip or a lost line does to the markup itself
+                static const char *closers[] = {"</loop>", "</if>", "<else>", "<else />", "}", "\"", "'", ">", "<loop", "<if", "{if", "{var:", "{math:", "{svar:", "{raw:"};
+                static const char *repl[]    = {"", "</if>", "</loop>", "<else", "<elseif", "}", "}}", "{", "\"", "'", ">", ">>", "<", "</", "<loop", "<if case=", "{if", "{math:", "{svar:", "{var:", "]", "["};
+                std::vector<std::pair<size_t, size_t>> hits;
+                for (size_t k = 0; k < sizeof(closers) / sizeof(closers[0]); k++) {
+                    U32 pat = A(closers[k]);
+                    for (size_t at = text.find(pat); at != U32::npos; at = text.find(pat, at + 1)) hits.emplace_back(at, pat.size());
+                }
+                if (hits.empty()) continue;
+                auto h = hits[(size_t)(f.pos % hits.size())];
+                text.replace(h.first, h.second, A(repl[(size_t)(f.arg % (sizeof(repl) / sizeof(repl[0])))]));
+                cx.faults_fired++;
+                qsim::probe("render.fault.tag-level");
+                continue;
+            }
             if (apply_fault(text, f)) {
                 cx.faults_fired++;
                 qsim::probe((std::string("render.fault.") + fault_name[f.kind % F_COUNT]).c_str());
@@ -226,7 +255,7 @@ struct RenderW {
                 break;
             case R_FAULT: {
                 Fault f;
-                f.kind = (int)((uint64_t)op.a[0] % F_COUNT);
+                f.kind = (int)((uint64_t)op.a[0] % (F_COUNT + 1));
                 f.pos  = (uint64_t)op.a[1];
                 f.arg  = (uint64_t)op.a[2];
                 f.unit = (uint32_t)op.a[3] & unit_mask<C>();
@@ -483,7 +512,7 @@ static void generate(Plan &plan, uint64_t seed, int tier) {
             for (size_t f = 0; f < nf; f++) {
                 Op op;
                 op.kind = R_FAULT;
-                static const int kinds[] = {F_TRUNCATE, F_TRUNCATE, F_FLIP, F_FLIP, F_FLIP, F_DROP, F_DROP, F_DUP, F_SWAP, F_CONCAT, F_STALE_TAIL, F_INSERT, F_INSERT};
+                static const int kinds[] = {F_TRUNCATE, F_TRUNCATE, F_FLIP, F_FLIP, F_FLIP, F_DROP, F_DROP, F_DUP, F_SWAP, F_CONCAT, F_STALE_TAIL, F_INSERT, F_INSERT, F_COUNT, F_COUNT, F_COUNT};
                 op.a[0] = kinds[flt.below(sizeof(kinds) / sizeof(int))];
                 std::vector<size_t> b = template_boundaries(tmpl);
                 if (!b.empty() && flt.chance(2, 3))
